@@ -24,6 +24,8 @@ type histParams struct {
 	Drain  bool     `json:"drain"`
 	Tx     bool     `json:"tx"`     // transaction universe + subscription
 	Live   bool     `json:"live"`   // C07 liveness phase at the end
+	Adversarial  bool `json:"adversarial"`   // C02: named tree + raw header/block events
+	StartUnknown bool `json:"start_unknown"` // start hash is a block the node has not seen at boot (pre-start mode)
 	ExtraDepth int  `json:"extra_depth"` // explore this scenario deeper than the check's base depth
 }
 
@@ -143,6 +145,9 @@ func (w *World) applyEvent(ev string) bool {
 		w.settleMacro()
 	default:
 		handled, ok := w.applyTxEvent(p)
+		if !handled {
+			handled, ok = w.applyAdvEvent(p)
+		}
 		if !handled {
 			panic("unknown event " + ev)
 		}
@@ -326,12 +331,20 @@ func runHist(p histParams, hist []string, withDrain bool) *histRun {
 		}
 		w.lastUnsync = w.S.Now
 	}
+	if p.Adversarial {
+		w.buildAdversarialTree()
+		w.shadowCheck()
+	}
 	for _, ev := range hist {
 		if len(w.viol) > 0 || w.livelock || len(w.S.Panics()) > 0 {
 			break
 		}
 		w.applyEvent(ev)
 		w.chainInvariants("C02")
+		if p.Adversarial {
+			w.shadowCheck()
+			w.fullChainInvariants()
+		}
 		if p.Tx {
 			w.oracleFlags(false)
 		}
@@ -396,6 +409,8 @@ func (w *World) eventEnabled(ev string) bool {
 		return w.P != nil && w.P.conn != nil && !w.P.conn.IsClosed()
 	case "dup":
 		return w.P != nil && len(w.P.sentLog) > 0
+	case "h", "b":
+		return w.P != nil && w.P.conn != nil && !w.P.conn.IsClosed() && !w.P.conn.Peer.IsClosed()
 	case "inv", "tx", "uping":
 		pc := w.connOf(p[1])
 		return pc != nil && pc.conn != nil && !pc.conn.IsClosed() && !pc.conn.Peer.IsClosed()
